@@ -34,11 +34,19 @@ type site struct {
 	Expr   string `json:"expr"`
 }
 
+type syncSite struct {
+	Label string `json:"label"`
+	Call  string `json:"call"`
+	Kind  string `json:"kind"` // lock | unlock | once | sync
+	Mode  string `json:"mode"` // wrapped | yield-before | deferred-unlock | skipped
+}
+
 type report struct {
-	Module   string   `json:"module"`
-	Packages []string `json:"packages"`
-	Sites    []site   `json:"sites"`
-	Warnings []string `json:"warnings,omitempty"`
+	Module    string     `json:"module"`
+	Packages  []string   `json:"packages"`
+	Sites     []site     `json:"sites"`
+	SyncSites []syncSite `json:"sync_sites,omitempty"`
+	Warnings  []string   `json:"warnings,omitempty"`
 }
 
 type edit struct {
@@ -180,13 +188,19 @@ func instrumentDir(root, dir string, rep *report) {
 			rep.Sites = append(rep.Sites, st)
 			return true
 		})
+		edits = append(edits, syncEdits(fset, f, b, info, relFile, rep)...)
 		if len(edits) == 0 {
 			continue
 		}
 		// import on the package-clause line keeps every line number stable
 		pkgEnd := fset.Position(f.Name.End()).Offset
 		edits = append(edits, edit{pkgEnd, pkgEnd, fmt.Sprintf("; import verifsim %q", rep.Module+"/verifsim")})
-		sort.Slice(edits, func(a, c int) bool { return edits[a].start > edits[c].start })
+		sort.SliceStable(edits, func(a, c int) bool {
+			if edits[a].start != edits[c].start {
+				return edits[a].start > edits[c].start
+			}
+			return edits[a].end > edits[c].end // a replacement before a pure insertion at the same offset
+		})
 		for _, e := range edits {
 			b = append(append(append([]byte{}, b[:e.start]...), e.text...), b[e.end:]...)
 		}
@@ -195,6 +209,130 @@ func instrumentDir(root, dir string, rep *report) {
 			os.Exit(2)
 		}
 	}
+}
+
+// syncEdits makes every use of package sync / sync/atomic inside the library a scheduling
+// point of the simulator (verifsim.Yield), so that interleavings *between* two critical
+// sections - check-then-act windows that the race detector cannot see - are explored, and
+// tells the simulator which regions hold a lock (verifsim.Held) so that it never parks a
+// task inside one.
+func syncEdits(fset *token.FileSet, f *ast.File, b []byte, info *types.Info, relFile string, rep *report) []edit {
+	var edits []edit
+	var stack []ast.Node
+	off := func(p token.Pos) int { return fset.Position(p).Offset }
+	inList := func(child ast.Node, parent ast.Node) bool {
+		var list []ast.Stmt
+		switch p := parent.(type) {
+		case *ast.BlockStmt:
+			list = p.List
+		case *ast.CaseClause:
+			list = p.Body
+		case *ast.CommClause:
+			list = p.Body
+		default:
+			return false
+		}
+		for _, s := range list {
+			if s == child {
+				return true
+			}
+		}
+		return false
+	}
+	ast.Inspect(f, func(n ast.Node) bool {
+		if n == nil {
+			stack = stack[:len(stack)-1]
+			return true
+		}
+		stack = append(stack, n)
+		call, ok := n.(*ast.CallExpr)
+		if !ok {
+			return true
+		}
+		sel, ok := call.Fun.(*ast.SelectorExpr)
+		if !ok {
+			return true
+		}
+		fn, ok := info.Uses[sel.Sel].(*types.Func)
+		if !ok || fn.Pkg() == nil {
+			return true
+		}
+		if pp := fn.Pkg().Path(); pp != "sync" && pp != "sync/atomic" {
+			return true
+		}
+		kind := "sync"
+		switch fn.Name() {
+		case "Lock", "RLock":
+			kind = "lock"
+		case "Unlock", "RUnlock":
+			kind = "unlock"
+		case "Do":
+			kind = "once"
+		case "TryLock", "TryRLock", "RLocker", "NewCond":
+			return true
+		}
+		// the enclosing statement that sits directly in a statement list
+		var stmt ast.Stmt
+		for i := len(stack) - 2; i >= 1; i-- {
+			if s, ok := stack[i].(ast.Stmt); ok && inList(s, stack[i-1]) {
+				stmt = s
+				break
+			}
+			if _, isFn := stack[i].(*ast.FuncLit); isFn {
+				break // do not hoist out of a closure body
+			}
+		}
+		pos := fset.Position(call.Pos())
+		label := fmt.Sprintf("%s:%d", relFile, pos.Line)
+		q := fmt.Sprintf("%q", label)
+		ss := syncSite{Label: label, Call: string(b[off(call.Pos()):off(call.End())]), Kind: kind, Mode: "skipped"}
+		if len(ss.Call) > 60 {
+			ss.Call = ss.Call[:60]
+		}
+		defer func() { rep.SyncSites = append(rep.SyncSites, ss) }()
+		if stmt == nil {
+			return true
+		}
+		switch st := stmt.(type) {
+		case *ast.ExprStmt:
+			if st.X == ast.Expr(call) {
+				var pre, post string
+				switch kind {
+				case "lock":
+					pre, post = "verifsim.Yield("+q+"); ", "; verifsim.Held(1)"
+				case "unlock":
+					pre, post = "verifsim.Held(-1); ", "; verifsim.Yield("+q+")"
+				case "once":
+					pre, post = "verifsim.Yield("+q+"); verifsim.Held(1); ", "; verifsim.Held(-1)"
+				default:
+					pre = "verifsim.Yield(" + q + "); "
+				}
+				edits = append(edits, edit{off(st.Pos()), off(st.Pos()), pre})
+				if post != "" {
+					edits = append(edits, edit{off(st.End()), off(st.End()), post})
+				}
+				ss.Mode = "wrapped"
+				return true
+			}
+		case *ast.DeferStmt:
+			if st.Call == call {
+				if kind == "unlock" {
+					orig := string(b[off(call.Pos()):off(call.End())])
+					edits = append(edits, edit{off(st.Pos()), off(st.End()), "defer func() { verifsim.Held(-1); " + orig + " }()"})
+					ss.Mode = "deferred-unlock"
+				}
+				return true
+			}
+		case *ast.GoStmt:
+			return true
+		}
+		if kind == "sync" {
+			edits = append(edits, edit{off(stmt.Pos()), off(stmt.Pos()), "verifsim.Yield(" + q + "); "})
+			ss.Mode = "yield-before"
+		}
+		return true
+	})
+	return edits
 }
 
 func hasIgnoreTag(f *ast.File) bool {
